@@ -259,7 +259,7 @@ func withReadFault(gen func(seed uint64, tier string) *sim.Plan) func(seed uint6
 		p.Cfg["save_all"] = 1
 		for k := fr.Range(1, 4); k > 0; k-- {
 			at := len(p.Steps)/4 + fr.Intn(len(p.Steps)-len(p.Steps)/4+1)
-			st := sim.Step{Op: "rdfault", A: fr.Intn(12), I: []int64{int64(fr.Intn(14)), int64(fr.Intn(14))}}
+			st := sim.Step{Op: "rdfault", A: fr.Intn(12), I: []int64{int64(fr.Intn(14)), int64(fr.Intn(14)), int64(fr.Pick([]int{4, 2, 2, 1, 1}) + 1)}}
 			p.Steps = append(p.Steps[:at], append([]sim.Step{st}, p.Steps[at:]...)...)
 		}
 		return p
